@@ -251,6 +251,7 @@ func runC05(w *W) {
 	var tree *generic.PathNode
 	nloads := 1 + t.Intn(4, "nloads")
 	for li := 0; li < nloads; li++ {
+		vg.o.nodes = 0
 		val := vg.value(rootT, vg.o.Depth)
 		raw := encodeThrift(nil, val)
 		// choose where the tree object comes from
